@@ -1,6 +1,7 @@
 package server
 
 import (
+	"io"
 	"context"
 	"encoding/json"
 	"errors"
@@ -70,6 +71,9 @@ type c19Case struct {
 	// correlation (CorrelationValueMiddleware). They pass on what they receive and hand back what they get: the stages
 	// around them observe the same trace as without them.
 	Library []libStage `json:"library_middlewares,omitempty"`
+	// StageErrorsWrap: the errors the stages return wrap io.EOF (eof) or io.ErrClosedPipe (closed-pipe) - a stage that
+	// reports the loss of a connection of its own. An error of a stage is that stage's result, whatever it wraps.
+	StageErrorsWrap string `json:"stage_errors_wrap,omitempty"`
 }
 type libStage struct {
 	Before int    `json:"registered_before_stage"`
@@ -300,12 +304,32 @@ func mkResponse(id string) *kmip.ResponseMessage {
 		BatchItem: []kmip.ResponseBatchItem{{Operation: kmip.OperationActivate, ResponsePayload: &payloads.ActivateResponsePayload{UniqueIdentifier: id}}}}
 }
 
+// wrappedErr: an error of a stage that wraps another one (a stage that talks to something itself and reports that its own
+// connection was lost): same text, errors.Is sees the cause.
+type wrappedErr struct {
+	text  string
+	cause error
+}
+
+func (e wrappedErr) Error() string { return e.text }
+func (e wrappedErr) Unwrap() error { return e.cause }
+
+// c19Wrap: what the errors of the stages wrap while a case runs (one case at a time per process).
+var c19Wrap error
+
+func stageErr(text string) error {
+	if c19Wrap != nil {
+		return wrappedErr{text, c19Wrap}
+	}
+	return errors.New(text)
+}
+
 func toReturn(r modelRes) (*kmip.ResponseMessage, error) {
 	if r.err != "" && r.id != "" {
-		return mkResponse(r.id), errors.New(r.err)
+		return mkResponse(r.id), stageErr(r.err)
 	}
 	if r.err != "" {
-		return nil, errors.New(r.err)
+		return nil, stageErr(r.err)
 	}
 	return mkResponse(r.id), nil
 }
@@ -610,6 +634,13 @@ func runClient(c c19Case) (traces [][]string, finals []modelRes, coreLogs [][]st
 }
 
 func c19Run(c c19Case) (sig string, err error) {
+	switch c.StageErrorsWrap {
+	case "eof":
+		c19Wrap = io.EOF
+	case "closed-pipe":
+		c19Wrap = io.ErrClosedPipe
+	}
+	defer func() { c19Wrap = nil }()
 	if len(c.Library) > 0 {
 		// a stage of the library that waits for itself would hang the case for ever
 		defer evid.DeadlockWatch("C19", "TestC19Chains", c, "kmip-go/kmipclient")()
@@ -794,6 +825,7 @@ func TestC19Chains(t *testing.T) {
 			}
 			c.Stages = append(c.Stages, p)
 		}
+		c.StageErrorsWrap = rapid.SampledFrom([]string{"", "", "eof", "closed-pipe"}).Draw(rt, "stage-errors-wrap")
 		key, _ := json.Marshal(c)
 		rec.Case(c19NonTrivial(c), key, "chain="+c.Chain, fmt.Sprintf("stages=%d", n))
 		if c19NonTrivial(c) && rec.WantSample() {
